@@ -241,7 +241,34 @@ func (db *DB) Serve(conn net.Conn) {
 			} else {
 				for _, raw := range tree.Stmts {
 					one := &pg_query.ParseResult{Stmts: []*pg_query.RawStmt{{Stmt: raw.Stmt}}}
-					out, tag, eerr := db.exec(sql, one, nil, nil, nil, true)
+					// SQL-level prepared statements: they live in the same name space as the protocol-level ones
+					if tag, handled, perr := db.sqlPrepared(sql, raw.Stmt, stmts); handled {
+						if perr != nil {
+							fail(perr)
+							break
+						}
+						be.Send(&pgproto3.CommandComplete{CommandTag: []byte(tag)})
+						continue
+					}
+					execSQL, execParams := sql, [][]byte(nil)
+					if ex := raw.Stmt.GetExecuteStmt(); ex != nil {
+						ps, ok := stmts[ex.GetName()]
+						if !ok {
+							db.logStmt(&Stmt{Kind: "other", SQL: sql, Err: "no such prepared statement"})
+							fail(errf("26000", "prepared statement %q does not exist", ex.GetName()))
+							break
+						}
+						var aerr error
+						execParams, aerr = executeArgs(ex)
+						if aerr != nil {
+							db.logStmt(&Stmt{Kind: "other", SQL: sql, Err: aerr.Error()})
+							fail(aerr)
+							break
+						}
+						one, execSQL = ps.tree, ps.sql
+						curSQL, curParams = sql, execParams
+					}
+					out, tag, eerr := db.exec(execSQL, one, execParams, nil, nil, true)
 					if eerr != nil {
 						fail(eerr)
 						break
@@ -394,6 +421,69 @@ func (db *DB) Serve(conn net.Conn) {
 			db.note("?")
 		}
 	}
+}
+
+// sqlPrepared executes `PREPARE name AS stmt` and `DEALLOCATE name | ALL` of the simple protocol against the
+// connection's table of prepared statements (`EXECUTE` is expanded by the caller). PostgreSQL refuses to
+// PREPARE a name that is in use and to DEALLOCATE a name that is not.
+func (db *DB) sqlPrepared(sql string, st *pg_query.Node, stmts map[string]*prepared) (tag string, handled bool, err error) {
+	switch {
+	case st.GetPrepareStmt() != nil:
+		p := st.GetPrepareStmt()
+		rec := &Stmt{Kind: "other", SQL: sql}
+		db.logStmt(rec)
+		if _, ok := stmts[p.GetName()]; ok {
+			rec.Err = "duplicate prepared statement"
+			return "", true, errf("42P05", "prepared statement %q already exists", p.GetName())
+		}
+		inner := &pg_query.ParseResult{Stmts: []*pg_query.RawStmt{{Stmt: p.GetQuery()}}}
+		text, derr := pg_query.Deparse(inner)
+		if derr != nil {
+			rec.Err = "deparse"
+			return "", true, errf("XX000", "fakepg: cannot deparse the prepared statement")
+		}
+		// the statement must be one the database can plan: unknown tables / columns are refused at PREPARE time
+		if _, _, serr := db.shape(inner); serr != nil {
+			rec.Err = serr.Error()
+			return "", true, serr
+		}
+		stmts[p.GetName()] = &prepared{sql: text, tree: inner}
+		return "PREPARE", true, nil
+	case st.GetDeallocateStmt() != nil:
+		name := st.GetDeallocateStmt().GetName()
+		rec := &Stmt{Kind: "other", SQL: sql}
+		db.logStmt(rec)
+		if name == "" { // DEALLOCATE ALL
+			for k := range stmts {
+				delete(stmts, k)
+			}
+			return "DEALLOCATE ALL", true, nil
+		}
+		if _, ok := stmts[name]; !ok {
+			rec.Err = "no such prepared statement"
+			return "", true, errf("26000", "prepared statement %q does not exist", name)
+		}
+		delete(stmts, name)
+		return "DEALLOCATE", true, nil
+	}
+	return "", false, nil
+}
+
+// executeArgs turns the argument list of `EXECUTE name (args)` into text-format parameter values.
+func executeArgs(ex *pg_query.ExecuteStmt) ([][]byte, error) {
+	var out [][]byte
+	for _, a := range ex.GetParams() {
+		data, _, null, _, err := cell(a, nil, nil)
+		if err != nil {
+			return nil, err
+		}
+		if null {
+			out = append(out, nil)
+		} else {
+			out = append(out, data)
+		}
+	}
+	return out, nil
 }
 
 func (db *DB) note(s string) {
